@@ -663,7 +663,7 @@ FPR_FILE = os.path.join(hv.V, 'tools/props/c11_fingerprints.json')
 
 def drifted(ctx):
     """DESIGN section 2, source-drift escalation: the model was written against a known text of the anchored files; when one
-    of them differs, the quick tier runs a sample ten times as large (a changed fingerprint is not an alarm)."""
+    of them differs, the quick tier runs a sample five times as large (a changed fingerprint is not an alarm)."""
     try:
         known = json.load(open(FPR_FILE))
     except OSError:
@@ -686,9 +686,9 @@ def gen_cases(ctx):
     if not thorough:
         d = drifted(ctx)
         if d:
-            scale = 10
+            scale = 5
             ctx.notes.append('source drift: %s differ(s) from the text the model was written against; the quick tier runs a '
-                             'sample 10 times as large' % ', '.join(d))
+                             'sample 5 times as large' % ', '.join(d))
             ctx.count('drift-escalation', len(d))
 
     # ---- (a) bounded-exhaustive: every pair of opcodes x FIN, the stream cut at every point of the first header ----
@@ -730,10 +730,10 @@ def gen_cases(ctx):
                                'ks': sim.ks}, 4, 'exh-nb-k'))
 
     # ---- (b) structured random scripts, blocking ----
-    n_run = 110000 if thorough else 260 * scale
+    n_run = 110000 if thorough else 600 * scale
     nbig = 0
     for i in range(n_run):
-        big_ok = nbig < (400 if thorough else 9 * scale)
+        big_ok = nbig < (400 if thorough else 16 * scale)
         frames, closes = rand_script(rng, big_ok)
         if any(len(f.payload) > 60000 for f in frames):
             nbig += 1
@@ -760,7 +760,7 @@ def gen_cases(ctx):
             yield (run_case(frames, rng, echo=False, end='rst', tag='rst'))
 
     # ---- (c) malformed stream ----
-    n_mal = 24000 if thorough else 90 * scale
+    n_mal = 24000 if thorough else 200 * scale
     for i in range(n_mal):
         frames, closes = rand_script(rng, False, maxframes=8, close_p=0.3)
         kind = rng.choice(['cont-first', 'mixed-opcodes', 'ctrl-nofin', 'ctrl-big', 'unmasked', 'rsv', 'nonminimal', 'reserved-op',
@@ -797,7 +797,7 @@ def gen_cases(ctx):
         yield (run_case(frames, rng, echo=rng.random() < 0.3, end='wait' if has_close else 'fin', tag='mal-' + kind, tail=tail))
 
     # ---- (d) non-blocking, choreographed ----
-    n_nb = 40000 if thorough else 110 * scale
+    n_nb = 40000 if thorough else 300 * scale
     for i in range(n_nb):
         frames, closes = rand_script(rng, i % 9 == 0, maxframes=rng.choice([2, 4, 6, 12]))
         if sum(len(f.payload) for f in frames) > 150000:
@@ -815,7 +815,7 @@ def gen_cases(ctx):
         yield (Case('nb', 'c11_nb ' + steps, frames, {'polls': polls, 'out': out.hex(), 'ks': ks, 'tail': tail.hex()}, w, 'nb'))
 
     # ---- (e) non-blocking, free-running ----
-    n_free = 12000 if thorough else 44 * scale
+    n_free = 12000 if thorough else 100 * scale
     for i in range(n_free):
         frames, closes = rand_script(rng, False, maxframes=rng.choice([3, 6, 12]))
         style = rng.choice(['headers', 'hdrbytes', 'random', 'frames', 'bytewise'])
@@ -826,7 +826,7 @@ def gen_cases(ctx):
                           3 + plan.count(',p') * 3, 'nbfree'))
 
     # ---- (f) handshakes through the real App ----
-    n_hs = 14000 if thorough else 60 * scale
+    n_hs = 14000 if thorough else 120 * scale
     post_frames = [Fr(TEXT, b'hi', 1, b'\x01\x02\x03\x04'), Fr(PING, b'p', 1, b'\xff\x00\xff\x00'), Fr(CLOSE, b'\x03\xe8', 1, b'\x0a\x0b\x0c\x0d')]
     post = b''.join(f.wire() for f in post_frames)
     for i in range(n_hs):
@@ -1024,6 +1024,9 @@ def run(ctx):
         return
     corpus = load_corpus()
     ctx.count('corpus', len(corpus))
+    # enumerated completely: every ordered pair of opcodes x FIN of the first frame (thorough: x every cut point of the
+    # stream), and opcode x k bytes available at the first non-blocking read for k in 0..4 (thorough 0..9)
+    ctx.exhaustive = True
     stream = itertools.chain(corpus, gen_cases(ctx))
     sampled = set()
     first = True
